@@ -22,6 +22,9 @@ def page_bounds(table_lines, serials, pcml):
     return sorted(b)
 
 
+SETUPS = []          # generated set-ups (3, 5, 6, 7 modes preferred, two block sizes) for hand-muxed links; filled by run()
+
+
 def gen_case(rng, i, tier):
     links = V.gen_links(rng)
     if i % 6 == 4:
@@ -31,8 +34,22 @@ def gen_case(rng, i, tier):
             links.insert(rng.randrange(2), V.gen_links(rng, 1, tiny=True)[0])
     lens = [int(l.split(" ")[4]) for l in links]
     rates = [int(l.split(" ")[2]) for l in links]
+    pre = V.with_mux(rng, links) + V.gen_splits(rng, links)
+    if SETUPS and i % 6 != 4 and rng.random() < 0.3:
+        # one more link, hand-muxed over a generated set-up (3, 5, 6, 7 modes — the encoder only ever writes one or two —, any mode order): the
+        # discard loop of the sample seek sizes every packet it skips from its mode number
+        rate = rng.choice([8000, 44100])
+        o, nraw, inf = V.raw_link_from(rng, rng.choice(SETUPS), 7000 + i % 900, rate, rng.randint(8, 120), trim=rng.choice([None, None, 3, 50]), flush_p=rng.choice([0.05, 0.2]))
+        if rng.random() < 0.5:
+            pre = pre + o
+            lens.append(nraw)
+            rates.append(rate)
+        else:
+            pre = o + pre
+            lens.insert(0, nraw)
+            rates.insert(0, rate)
     total = sum(lens)
-    ops = ["case %d" % i] + V.with_mux(rng, links) + V.gen_splits(rng, links) + ["table", "ref 0", "open 0 1 %d" % rng.choice([4096, 1, 513, 100000])]
+    ops = ["case %d" % i] + pre + ["table", "ref 0", "open 0 1 %d" % rng.choice([4096, 1, 513, 100000])]
     bounds = [0]
     for n in lens:
         bounds.append(bounds[-1] + n)
@@ -204,6 +221,9 @@ def run(chk):
     theorems = vlib.theorem_names("C08")
     broken = chk.proof_side(theorems)
     n = 60 if chk.tier == "quick" else 1500
+    cand = V.valid_setups(chk.rng, 40 if chk.tier == "quick" else 120)
+    cand.sort(key=lambda su: -((len(su["flags"]) in (3, 5, 6, 7)) + (0 < sum(su["flags"]) < len(su["flags"])) + (su["b0"] != su["b1"])))
+    SETUPS[:] = cand[:10 if chk.tier == "quick" else 40]
     cases = common.load_corpus("C08", 100000) + [gen_case(chk.rng, i, chk.tier) for i in range(n)]
     res = V.run_vf(cases)
     ofail = []
